@@ -163,7 +163,7 @@ def unit_runs(u):
 def run(tier, seed):
     t0 = time.time()
     acc = propmc.run(PROP, tier, seed, types=sorted(ENTAILING))
-    fams = ("F1", "F2", "F3", "F4", "F5", "F6")
+    fams = U.ALL
     eng, nspecs = SC.run_units(unit, tier, seed, fams, chunk=20, filt=lambda s: eligible(s, tier))
     acc.merge(eng)
     runs, _ = SC.run_units(unit_runs, tier, seed, fams, chunk=40,
